@@ -326,6 +326,17 @@ def huge(seed, count, tag='HUGE'):
         rows = [rng.choice(pats) for _ in range(big)]
         for _ in range(6):      # a few special rows anywhere, in particular near the end
             rows[rng.randrange(big * 9 // 10, big)] = rng.getrandbits(small)
+        if k % 4 == 2:      # long aligned runs of empty rows, then a few described ones; very sparse
+            big = rng.choice([4096, 8192, 4096 * 3]) + rng.randint(3, 40)
+            rows = [0] * big
+            for i in range(big - rng.randint(3, 30), big):
+                rows[i] = rng.getrandbits(small) or 1
+            for _ in range(rng.randint(0, 3)):
+                rows[rng.randrange(big)] = rng.getrandbits(small)
+        elif k % 4 == 3:
+            big = rng.randint(5000, 13000)
+            rows = [(rng.getrandbits(small) if rng.random() < .002 else 0) for _ in range(big)]
+            rows[-1] = rows[-1] or 1
         if k % 2 == 0:
             yield case(tag + '-tall', rows, small, 'plain')
         else:
@@ -411,7 +422,7 @@ def ctx_stream(tier, seed, *, scale=1.0, with_wide=True, max_rnd=None, with_huge
         yield from manyrows(seed, int(12 * scale))
         yield from (c for c in longaxis(seed, 2) if with_wide or len(c['properties']) < 64)
         if with_huge:
-            yield from huge(seed, 2)
+            yield from huge(seed, 4)
     else:
         yield from exh(3, 3)
         yield from exh(0, 0, sizes=[(3, 4), (4, 3), (4, 4)] if scale >= 1 else [(3, 4), (4, 3)])
